@@ -360,7 +360,15 @@ Section Inv2.
     notify cs jsA wt rd = (js4, wt', rd') ->
     exists rell,
       rd' = rd ++ rell /\ wt' = (wt - Z.of_nat (length rell))%Z /\
-      Inv2' LRun nr js4 (fun x => rel x - b2n (Nat.eqb j0 x) + count_occ Nat.eq_dec rell x).
+      Inv2' LRun nr js4 (fun x => rel x - b2n (Nat.eqb j0 x) + count_occ Nat.eq_dec rell x) /\
+      (forall x, jdone (jget js4 x) = jdone (jget js x) || (x =? j0)) /\
+      (forall x, x <> j0 -> jerr (jget js4 x) = jerr (jget js x)) /\
+      jerr (jget js4 j0) = r /\
+      (forall x, jinvalid (jget js4 x) = jinvalid (jget js x) || (marked && existsb (Nat.eqb x) cs)) /\
+      (forall x, remaining (jget js4 x) = (remaining (jget js x) - Z.of_nat (count_occ Nat.eq_dec cs x))%Z) /\
+      (forall x, count_occ Nat.eq_dec cs x = if waitingj js x then count_occ Nat.eq_dec (deps x) j0 else 0) /\
+      (forall x, count_occ Nat.eq_dec rell x = if waitingj js x && negb (waitingj js4 x) then 1 else 0) /\
+      (forall x, waitingj js4 x = true -> waitingj js x = true).
   Proof.
     intros I Ln Hr0 Hd0 cs HAd HAe HAe0 HAr HAc HAi HAl Hmk Hcoe Hn.
     pose proof (i2_places _ _ _ _ I eq_refl j0) as P0. rewrite Hr0, Hd0 in P0. cbn [b2n] in P0.
@@ -418,6 +426,23 @@ Section Inv2.
               then 1 else 0).
     { intros x. rewrite Hrell, HAr. reflexivity. }
     assert (Hc0 : count_occ Nat.eq_dec cs j0 = 0) by (rewrite Hcs, B2; reflexivity).
+    assert (Hflip : forall x, count_occ Nat.eq_dec rell x = if waitingj js x && negb (waitingj js4 x) then 1 else 0).
+    { intros x. rewrite Hrel1. unfold waitingj at 2. rewrite H4r. rewrite Hcs.
+      destruct (waitingj js x) eqn:W.
+      - pose proof (Hwnr x W) as Hx.
+        assert (Hle : (Z.of_nat (count_occ Nat.eq_dec (deps x) j0) <= remaining (jget js x))%Z).
+        { rewrite Hremw by auto. apply inj_le. now apply count_le_undone. }
+        unfold waitingj in W. apply Z.ltb_lt in W. cbn [andb].
+        destruct (Z.eqb_spec (remaining (jget js x)) (Z.of_nat (count_occ Nat.eq_dec (deps x) j0))) as [Eq|Neq].
+        + replace (0 <? count_occ Nat.eq_dec (deps x) j0) with true by (symmetry; apply Nat.ltb_lt; lia).
+          rewrite Eq, Z.sub_diag. reflexivity.
+        + rewrite andb_false_r.
+          replace (0 <? remaining (jget js x) - Z.of_nat (count_occ Nat.eq_dec (deps x) j0))%Z with true
+            by (symmetry; apply Z.ltb_lt; lia). reflexivity.
+      - reflexivity. }
+    assert (Hmono : forall x, waitingj js4 x = true -> waitingj js x = true).
+    { intros x. unfold waitingj. rewrite H4r. intros H. apply Z.ltb_lt in H. apply Z.ltb_lt. lia. }
+    split; [|repeat split; auto].
     constructor.
     - (* pristine *)
       intros _ x Hx. pose proof (i2_pristine _ _ _ _ I eq_refl x Hx) as Px.
@@ -546,9 +571,22 @@ Section Inv2.
       rewrite H4e by auto. apply (i2_noerr _ _ _ _ I x Hx).
   Qed.
 
-  Lemma inv2_done s i j0 r s' evs :
+  (* everything the result arm does, job by job *)
+  Definition done_facts (s s' : core) (j0 : nat) (r : option err) : Prop :=
+    jdone (job s j0) = false /\ j0 < n /\
+    (forall x, jdone (job s' x) = jdone (job s x) || (x =? j0)) /\
+    (forall x, x <> j0 -> jerr (job s' x) = jerr (job s x)) /\
+    jerr (job s' j0) = r /\
+    (forall x, jinvalid (job s' x) = true ->
+               jinvalid (job s x) = true \/ (ccoe c = true /\ r <> None /\ In j0 (deps x))) /\
+    (forall x, jinvalid (job s x) = true -> jinvalid (job s' x) = true) /\
+    (exists rell, ready s' = ready s ++ rell /\ waiting s' = (waiting s - Z.of_nat (length rell))%Z /\
+       (forall x, count_occ Nat.eq_dec rell x = if waitingj (jobs s) x && negb (waitingj (jobs s') x) then 1 else 0) /\
+       (forall x, waitingj (jobs s') x = true -> waitingj (jobs s) x = true)).
+
+  Lemma done_effect s i j0 r s' evs :
     Inv1 c s -> Inv2 s -> lp s = LRun -> nth_error (donec s) i = Some (j0, r) ->
-    stepc c s (ALoopDone i) = Some (s', evs) -> Inv2 s'.
+    stepc c s (ALoopDone i) = Some (s', evs) -> Inv2 s' /\ done_facts s s' j0 r.
   Proof.
     intros I1 I2 Hl Hn H.
     pose proof (i1_jobs _ _ I1) as Lj.
@@ -580,7 +618,24 @@ Section Inv2.
         rewrite andb_true_r, G1. destruct (Nat.eqb j0 x); reflexivity. }
       destruct (negb (ccoe c)) eqn:Hcoe.
       + (* fail-fast: the loop leaves *)
-        injection H as <- <-. unfold Inv2. cbn.
+        injection H as <- <-. split.
+        2:{ unfold done_facts, job. cbn [jobs set_lp set_serr set_jobs set_ongoing set_pending set_donec ready waiting].
+            fold js. fold (jget js2) (jget js).
+            split; [exact Hd0|]. split; [exact Hj0n|].
+            split; [intros x; fold (jget js2 x) (jget js x); rewrite G2, (Nat.eqb_sym x j0);
+                    destruct (Nat.eqb j0 x); cbn; [now rewrite orb_true_r|now rewrite orb_false_r]|].
+            split; [intros x Hx; fold (jget js2 x) (jget js x); rewrite G2;
+                    destruct (Nat.eqb_spec j0 x); [congruence|reflexivity]|].
+            split; [fold (jget js2 j0); rewrite G2, Nat.eqb_refl; reflexivity|].
+            split; [intros x Hx; fold (jget js2 x) (jget js x) in *; rewrite G2 in Hx;
+                    destruct (Nat.eqb j0 x); cbn in Hx; now left|].
+            split; [intros x Hx; fold (jget js2 x) (jget js x) in *; rewrite G2;
+                    destruct (Nat.eqb j0 x); cbn; exact Hx|].
+            exists []. rewrite app_nil_r. cbn [length]. split; [reflexivity|]. split; [lia|].
+            assert (Wsame : forall x, waitingj js2 x = waitingj js x).
+            { intros x. unfold waitingj. rewrite G2. destruct (Nat.eqb j0 x); reflexivity. }
+            split; intros x; rewrite Wsame; [destruct (waitingj js x); reflexivity|auto]. }
+        unfold Inv2. cbn.
         eapply inv2_ext with (rel := fun x => rel x - b2n (Nat.eqb j0 x)).
         { intros x. unfold rel, relc. rewrite Hrm.
           destruct (Nat.eq_dec j0 x) as [<-|Hne]; [rewrite Nat.eqb_refl; cbn; lia|].
@@ -636,7 +691,21 @@ Section Inv2.
         assert (A9 : Some e <> None -> ccoe c = true) by (intros _; exact Hcoe).
         destruct (inv2_done_core js rel nr j0 (Some e) jsA true
                     (waiting s) (ready s) js4 wt' rd' I2 Lj Hr0 Hd0 A1 A2 A3 A4 A5 A6 A7 A8 A9 En)
-          as (rell & Erd & Ewt & I4).
+          as (rell & Erd & Ewt & I4 & F1 & F2 & F3 & F4 & F5 & F6 & F7 & F8).
+        assert (DF : done_facts s (set_ready rd' (set_waiting wt' (set_jobs js4
+                    (set_serr (if is_err e then serr s ++ [e] else serr s)
+                    (set_ongoing (ongoing s - 1)%Z (set_pending (pending s - 1)%Z
+                    (set_donec (remove_nth i (donec s)) s))))))) j0 (Some e)).
+        { unfold done_facts, job. cbn [jobs set_ready set_waiting set_jobs set_serr set_ongoing set_pending set_donec ready waiting].
+          fold js. split; [exact Hd0|]. split; [exact Hj0n|]. split; [exact F1|]. split; [exact F2|]. split; [exact F3|].
+          split.
+          { intros x Hx. fold (jget js4 x) in Hx. rewrite F4 in Hx. apply orb_true_iff in Hx as [Hx|Hx]; [now left|right].
+            cbn in Hx. rewrite existsb_eqb_count in Hx. apply Nat.ltb_lt in Hx. rewrite F6 in Hx.
+            split; [exact Hcoe|]. split; [discriminate|].
+            destruct (waitingj js x); [|lia]. apply (count_occ_In Nat.eq_dec). exact Hx. }
+          split.
+          { intros x Hx. fold (jget js4 x). rewrite F4. fold (jget js x) in Hx. rewrite Hx. reflexivity. }
+          exists rell. split; [exact Erd|]. split; [exact Ewt|]. split; [exact F7|exact F8]. }
         assert (Inv2 (set_ready rd' (set_waiting wt' (set_jobs js4
                     (set_serr (if is_err e then serr s ++ [e] else serr s)
                     (set_ongoing (ongoing s - 1)%Z (set_pending (pending s - 1)%Z
@@ -646,7 +715,9 @@ Section Inv2.
             eapply inv2_ext; [|exact I4]. intros x. unfold rel, relc. cbn. rewrite Erd, count_occ_app, Hrm.
             destruct (Nat.eq_dec j0 x) as [<-|Hne]; [rewrite Nat.eqb_refl; cbn; lia|].
             destruct (Nat.eqb_spec j0 x); [congruence|cbn; lia]. }
-          fin_step H; [exact IS | apply inv2_drain; [exact Hl|exact IS]].
+          fin_step H; (split; [|
+            unfold done_facts in *; cbn [jobs ready waiting set_lp job] in *; exact DF]);
+            [exact IS | apply inv2_drain; [exact Hl|exact IS]].
     - (* success *)
       set (cs := consumers (nth j0 js1 jst0)) in *.
       assert (Ecs : cs = consumers (jget js j0)).
@@ -671,7 +742,17 @@ Section Inv2.
       assert (A9 : @None err <> None -> ccoe c = true) by congruence.
       destruct (inv2_done_core js rel nr j0 None js1 false
                   (waiting s) (ready s) js4 wt' rd' I2 Lj Hr0 Hd0 A1 A2 A3 A4 A5 A6 A7 A8 A9 En)
-        as (rell & Erd & Ewt & I4).
+        as (rell & Erd & Ewt & I4 & F1 & F2 & F3 & F4 & F5 & F6 & F7 & F8).
+      assert (DF : done_facts s (set_ready rd' (set_waiting wt' (set_jobs js4
+                  (set_ongoing (ongoing s - 1)%Z (set_pending (pending s - 1)%Z
+                  (set_donec (remove_nth i (donec s)) s)))))) j0 None).
+      { unfold done_facts, job. cbn [jobs set_ready set_waiting set_jobs set_ongoing set_pending set_donec ready waiting].
+        fold js. split; [exact Hd0|]. split; [exact Hj0n|]. split; [exact F1|]. split; [exact F2|]. split; [exact F3|].
+        split.
+        { intros x Hx. fold (jget js4 x) in Hx. rewrite F4 in Hx. cbn in Hx. rewrite orb_false_r in Hx. now left. }
+        split.
+        { intros x Hx. fold (jget js4 x). rewrite F4. fold (jget js x) in Hx. rewrite Hx. reflexivity. }
+        exists rell. split; [exact Erd|]. split; [exact Ewt|]. split; [exact F7|exact F8]. }
       assert (Inv2 (set_ready rd' (set_waiting wt' (set_jobs js4
                   (set_ongoing (ongoing s - 1)%Z (set_pending (pending s - 1)%Z
                   (set_donec (remove_nth i (donec s)) s))))))) as IS.
@@ -680,7 +761,9 @@ Section Inv2.
           eapply inv2_ext; [|exact I4]. intros x. unfold rel, relc. cbn. rewrite Erd, count_occ_app, Hrm.
           destruct (Nat.eq_dec j0 x) as [<-|Hne]; [rewrite Nat.eqb_refl; cbn; lia|].
           destruct (Nat.eqb_spec j0 x); [congruence|cbn; lia]. }
-        fin_step H; [exact IS | apply inv2_drain; [exact Hl|exact IS]].
+        fin_step H; (split; [|
+          unfold done_facts in *; cbn [jobs ready waiting set_lp job] in *; exact DF]);
+          [exact IS | apply inv2_drain; [exact Hl|exact IS]].
   Qed.
 
   Lemma inv2_step s a s' evs : Inv1 c s -> Inv2 s -> stepc c s a = Some (s', evs) -> Inv2 s'.
@@ -697,6 +780,70 @@ Section Inv2.
       pose proof H as H0. unfold stepc in H0.
       destruct (lp s) eqn:Hl; try discriminate.
       destruct (nth_error (donec s) i) as [[j0 r]|] eqn:Hn; try discriminate.
-      eapply inv2_done; eauto.
+      eapply done_effect; eauto.
+  Qed.
+
+  (* everything the enqueue arm does to the job table *)
+  Definition enq_facts (s : core) (k : nat) (js' : list jst) : Prop :=
+    k < n /\ nrecv s = k /\ jget (jobs s) k = jst0 /\
+    (forall x, jdone (jget js' x) = jdone (jget (jobs s) x) /\ jerr (jget js' x) = jerr (jget (jobs s) x)) /\
+    (forall x, x <> k -> remaining (jget js' x) = remaining (jget (jobs s) x) /\
+                         jinvalid (jget js' x) = jinvalid (jget (jobs s) x)) /\
+    remaining (jget js' k) = Z.of_nat (length (filter (undone_in (jobs s)) (deps k))) /\
+    jinvalid (jget js' k) = existsb (failed_in (jobs s)) (deps k).
+
+  Lemma enqrecv_facts s k rest :
+    Inv1 c s -> Inv2 s -> lp s = LRun -> enq s = k :: rest ->
+    rest = [] /\ enq_facts s k (reg_deps k (deps k) (jobs s)).
+  Proof.
+    intros I1 I2 Hl He.
+    destruct (i1_enq _ _ I1) as [E|[E Hs1]]; rewrite He in E; [discriminate|].
+    injection E as Ek Er. subst rest. split; [reflexivity|].
+    pose proof (i1_sent _ _ I1) as Hsn. pose proof (i1_jobs _ _ I1) as Lj.
+    assert (Hnr : nrecv s = k) by (unfold nrecv; rewrite He; cbn; lia).
+    assert (Hkn : k < n) by lia.
+    unfold Inv2 in I2. rewrite Hl, Hnr in I2.
+    assert (Hkl : k < length (jobs s)) by lia.
+    assert (Hnin : ~ In k (deps k)) by (intros H; apply wf_deps_lt in H; lia).
+    pose proof (i2_pristine _ _ _ _ I2 eq_refl k (le_n k)) as Pk.
+    destruct (reg_deps_self k (deps k) (jobs s) Hkl Hnin) as (Rk & Vk & Ck).
+    rewrite Pk in Rk, Vk. cbn in Rk, Vk.
+    unfold enq_facts. repeat split; auto.
+    - apply reg_deps_done_err.
+    - apply reg_deps_done_err.
+    - now apply reg_deps_other.
+    - now apply reg_deps_other.
+  Qed.
+
+  (* what the result arm does to everything but the job table *)
+  Definition done_frame (s s' : core) (i j0 : nat) (r : option err) (evs : list event) : Prop :=
+    workers s' = workers s /\ donec s' = remove_nth i (donec s) /\ cancelled s' = cancelled s /\
+    cp s' = cp s /\ enq s' = enq s /\ enq_nil s' = enq_nil s /\ enq_closed s' = enq_closed s /\
+    pending s' = (pending s - 1)%Z /\
+    ((ccoe c = false /\ lp s' = LDrain /\ (exists e, r = Some e /\ serr s' = [e]) /\
+      evs = [EvDoneRecv j0 r; EvLoopExit]) \/
+     ((ccoe c = true \/ r = None) /\
+      serr s' = match r with Some e => if is_err e then serr s ++ [e] else serr s | None => serr s end /\
+      ((lp s' = LRun /\ evs = [EvDoneRecv j0 r]) \/
+       (lp s' = LDrain /\ evs = [EvDoneRecv j0 r; EvLoopExit] /\ pending s' = 0%Z /\ enq_nil s' = true)))).
+
+  Lemma done_frame_holds s i j0 r s' evs :
+    lp s = LRun -> nth_error (donec s) i = Some (j0, r) ->
+    stepc c s (ALoopDone i) = Some (s', evs) -> done_frame s s' i j0 r evs.
+  Proof.
+    intros Hl Hn H. unfold stepc in H. rewrite Hl, Hn in H. cbv zeta in H. unfold done_frame.
+    destruct r as [e|].
+    - destruct (negb (ccoe c)) eqn:Hc.
+      + apply negb_true_iff in Hc. injection H as <- <-. cbn. repeat split; auto.
+        left. repeat split; auto. exists e. auto.
+      + apply negb_false_iff in Hc.
+        destruct (notify _ _ _ _) as [[js4 wt'] rd'].
+        fin_step H; cbn; repeat split; auto; right; (split; [now left|]); (split; [reflexivity|]).
+        * now left.
+        * right. cbn in *. auto.
+    - destruct (notify _ _ _ _) as [[js4 wt'] rd'].
+      fin_step H; cbn; repeat split; auto; right; (split; [now right|]); (split; [reflexivity|]).
+      * now left.
+      * right. cbn in *. auto.
   Qed.
 End Inv2.
